@@ -61,8 +61,8 @@ theorem columnSpans_eq_spec (c : Column) (hv : c.Valid) : columnSpans .repaired 
 theorem sessionGetSpansFields_eq_spec (c0 c1 : Column) (h0 : c0.Valid) (h1 : c1.Valid)
     (hl : c0.rows.length = c1.rows.length) :
     sessionGetSpansFields .repaired [c0, c1] = .ok (spans neq (c0.rows.zip c1.rows)) := by
-  simp only [sessionGetSpansFields, columnSpans_eq_spec c0 h0, columnSpans_eq_spec c1 h1]
-  exact getSpansFor2FieldsBySpans_eq_spec c0.rows c1.rows hl
+  simp only [sessionGetSpansFields, foldColumnSpans, columnSpans_eq_spec c0 h0, columnSpans_eq_spec c1 h1,
+    getSpansFor2FieldsBySpans_eq_spec c0.rows c1.rows hl]
 
 theorem isBoundary_jointRows2 (a b : List Int) (hl : a.length = b.length) (i : Nat) :
     isBoundary neq (jointRows [a, b] a.length) i = isBoundary neq (a.zip b) i := by
